@@ -1,2 +1,181 @@
+import Tapeverif.Lemmas.Asm
+import Tapeverif.Model.Tools
+import Tapeverif.Gen.Tables
+/-! # C11 — the documented encoding: nothing dropped, duplicated or reordered; PUSH is minimal
+
+The reference assembler is `encodeSeq`; source *texts* are tied to it differentially
+(`harness/props/c11.py`) — no theorem quantifies over source texts. -/
 namespace TV.C11
+
+open Asm
+
+/-- C11.1 the encoding of a program is the concatenation, in order, of the encodings of its
+    instructions. -/
+theorem encode_append (p q : List Instr) : encodeSeq (p ++ q) = encodeSeq p ++ encodeSeq q := by
+  simp [encodeSeq]
+
+/-- C11.2a the operands of a well-formed instruction decode back to exactly its fields -/
+theorem decode_encode_operands (c : UInt8) (fs : List Bytes) (rest : Bytes)
+    (hwf : wellFormed ⟨c, fs⟩ = true) :
+    decodeOperands c (encodeOperands c fs ++ rest) = some (fs, rest) := by
+  unfold wellFormed at hwf
+  unfold decodeOperands encodeOperands
+  cases hk : kindOf c.toNat <;> simp only [hk] at hwf ⊢
+  · -- none
+    match fs, hwf with
+    | [], _ => simp
+  · -- u1
+    match fs, hwf with
+    | [x], h =>
+      simp only [decide_eq_true_eq] at h
+      have := takeExact_append x rest; rw [h] at this; simp [this]
+  · -- sized1
+    match fs, hwf with
+    | [v], h =>
+      simp only [decide_eq_true_eq] at h
+      simp [readSized_sized 1 v rest (by simpa using h)]
+  · -- sized2
+    match fs, hwf with
+    | [v], h =>
+      simp only [decide_eq_true_eq] at h
+      simp [readSized_sized 2 v rest (by simpa using h)]
+  · -- writeCache
+    match fs, hwf with
+    | [k, n], h =>
+      simp only [Bool.and_eq_true, decide_eq_true_eq] at h
+      rw [List.append_assoc, readSized_sized 1 k (n ++ rest) (by simpa using h.1)]
+      have := takeExact_append n rest; rw [h.2] at this; simp [this]
+  · -- f4
+    match fs, hwf with
+    | [x], h =>
+      simp only [decide_eq_true_eq] at h
+      have := takeExact_append x rest; rw [h] at this; simp [this]
+  · -- swap
+    match fs, hwf with
+    | [x, y], h =>
+      simp only [Bool.and_eq_true, decide_eq_true_eq] at h
+      have h1 := takeExact_append x (y ++ rest); rw [h.1] at h1
+      have h2 := takeExact_append y rest; rw [h.2] at h2
+      simp [List.append_assoc, h1, h2]
+  · -- multisig
+    match fs, hwf with
+    | [x, y, z], h =>
+      simp only [Bool.and_eq_true, decide_eq_true_eq] at h
+      have h1 := takeExact_append x (y ++ (z ++ rest)); rw [h.1.1] at h1
+      have h2 := takeExact_append y (z ++ rest); rw [h.1.2] at h2
+      have h3 := takeExact_append z rest; rw [h.2] at h3
+      simp [List.append_assoc, h1, h2, h3]
+  · -- bytes32
+    match fs, hwf with
+    | [x], h =>
+      simp only [decide_eq_true_eq] at h
+      have := takeExact_append x rest; rw [h] at this; simp [this]
+  · -- def
+    match fs, hwf with
+    | [hd, body], h =>
+      simp only [Bool.and_eq_true, decide_eq_true_eq] at h
+      have h1 := takeExact_append hd (sized 2 body ++ rest); rw [h.1] at h1
+      simp [List.append_assoc, h1, readSized_sized 2 body rest (by simpa using h.2)]
+  · -- body1
+    match fs, hwf with
+    | [v], h =>
+      simp only [decide_eq_true_eq] at h
+      simp [readSized_sized 2 v rest (by simpa using h)]
+  · -- body2
+    match fs, hwf with
+    | [b1, b2], h =>
+      simp only [Bool.and_eq_true, decide_eq_true_eq] at h
+      rw [List.append_assoc, readSized_sized 2 b1 (sized 2 b2 ++ rest) (by simpa using h.1)]
+      simp [readSized_sized 2 b2 rest (by simpa using h.2)]
+
+/-- C11.2 the bytecode determines the program: decoding the documented encoding of well-formed
+    instructions gives the same instructions back, in order. -/
+theorem decode_encode_seq : ∀ (is : List Instr) (fuel : Nat), (∀ i ∈ is, wellFormed i = true) →
+    (encodeSeq is).length ≤ fuel → decodeSeq fuel (encodeSeq is) = some is := by
+  intro is
+  induction is with
+  | nil => intro fuel _ _; cases fuel <;> simp [encodeSeq, decodeSeq]
+  | cons i rest ih =>
+    intro fuel hwf hlen
+    have hi := hwf i (by simp)
+    simp only [encodeSeq, List.flatMap_cons] at hlen ⊢
+    cases fuel with
+    | zero => simp [encodeInstr] at hlen
+    | succ n =>
+      have hdn : decodeNext (encodeInstr i ++ List.flatMap encodeInstr rest) = some (i, List.flatMap encodeInstr rest) := by
+        simp only [encodeInstr, List.cons_append, decodeNext]
+        rw [decode_encode_operands i.code i.fields _ hi]
+        simp
+      have hne : encodeInstr i ++ List.flatMap encodeInstr rest ≠ [] := by simp [encodeInstr]
+      match hb : encodeInstr i ++ List.flatMap encodeInstr rest with
+      | [] => exact absurd hb hne
+      | c :: t =>
+        simp only [decodeSeq]
+        rw [← hb, hdn]
+        have := ih n (fun j hj => hwf j (by simp [hj])) (by
+          simp only [encodeSeq]
+          have : (encodeInstr i).length ≥ 1 := by simp [encodeInstr]
+          rw [List.length_append] at hlen; omega)
+        simp only [encodeSeq] at this
+        simp [this]
+
+/-- C11.3 `push` selects the smallest push instruction that fits: PUSH0 iff 1 byte, PUSH1 iff
+    2 … 255 bytes, PUSH2 iff 256 … 65535 bytes; the empty value and ≥ 65536 bytes are rejected. -/
+theorem push_minimal (v : Bytes) :
+    (v.length = 1 → Tools.pushBytes v = some (2 :: v)) ∧
+    (1 < v.length ∧ v.length < 256 → Tools.pushBytes v = some (3 :: (natToBytesBE 1 v.length ++ v))) ∧
+    (255 < v.length ∧ v.length < 65536 → Tools.pushBytes v = some (4 :: (natToBytesBE 2 v.length ++ v))) ∧
+    (v.length = 0 ∨ 65536 ≤ v.length → Tools.pushBytes v = none) := by
+  unfold Tools.pushBytes Tools.opc
+  refine ⟨?_, ?_, ?_, ?_⟩
+  · intro h; simp [h]
+  · intro h
+    have : v.length ≠ 1 := by omega
+    simp [this, h]
+  · intro h
+    have h1 : v.length ≠ 1 := by omega
+    have h2 : ¬ (1 < v.length ∧ v.length < 256) := by omega
+    simp [h1, h2, h]
+  · intro h
+    have h1 : v.length ≠ 1 := by omega
+    have h2 : ¬ (1 < v.length ∧ v.length < 256) := by omega
+    have h3 : ¬ (255 < v.length ∧ v.length < 65536) := by omega
+    simp [h1, h2, h3]
+
+/-- … and what `push` emits decodes as that push instruction carrying exactly `v`. -/
+theorem push_decodes (v e : Bytes) (h : Tools.pushBytes v = some e) :
+    ∃ c, decodeNext e = some (⟨c, [v]⟩, []) := by
+  unfold Tools.pushBytes Tools.opc at h
+  split at h
+  · next h1 =>
+    simp only [Option.some.injEq] at h; subst h
+    refine ⟨2, ?_⟩
+    have := decode_encode_operands 2 [v] [] (by simp [wellFormed, kindOf, h1])
+    simpa [decodeNext, encodeOperands, kindOf] using this
+  · split at h
+    · next h2 =>
+      simp only [Option.some.injEq] at h; subst h
+      refine ⟨3, ?_⟩
+      have := decode_encode_operands 3 [v] [] (by simp [wellFormed, kindOf, h2.2])
+      simpa [decodeNext, encodeOperands, kindOf, sized] using this
+    · split at h
+      · next h3 =>
+        simp only [Option.some.injEq] at h; subst h
+        refine ⟨4, ?_⟩
+        have := decode_encode_operands 4 [v] [] (by simp [wellFormed, kindOf, h3.2])
+        simpa [decodeNext, encodeOperands, kindOf, sized] using this
+      · cases h
+
+/-- table obligation: for every op name the compiler's operand encoder class equals the model's
+    layout (regenerated from /repo's `get_args` / `parse_next` on this run) -/
+theorem compiler_classes_match :
+    Gen.opcodes.all (fun (c, n) =>
+      ((Gen.compilerClass.find? (·.1 = n)).map (·.2)) = some (kindOf c).name) = true := by
+  decide +kernel
+
+/-- every alias resolves to an assigned opcode name -/
+theorem aliases_resolve :
+    Gen.aliases.all (fun (_, full) => Gen.opcodes.any (fun (_, n) => n = full)) = true := by
+  decide +kernel
+
 end TV.C11
